@@ -399,6 +399,15 @@ func ruleEvict(c *Ctx) {
 	}
 	if fn := p.Fn("(*rescache.Cache).mqUnsubscribe"); fn != nil {
 		mu := p.Method("rescache.EventSubscription.mqUnsubscribe")
+		cmu := p.Field("rescache.Cache.mu")
+		ls := lockStates(fn, cmu, 0)
+		for _, call := range callsIn(fn) {
+			if _, ok := isCallTo(call, mu); ok {
+				c.inst(1)
+				c.check(ls[call] == 1, fnName(fn), "eviction decides and unsubscribes under the cache mutex", p.InstrPos(call), "Cache.mu held",
+					"the entry is unsubscribed from the messaging system outside the cache mutex: a subscribe arriving in between is served from an entry without event subscription, which is then deleted while in use")
+			}
+		}
 		for _, in := range instrsOf(fn) {
 			call, ok := isBuiltinCall(in, "delete")
 			if !ok {
